@@ -22,16 +22,26 @@
          dom     name of the signing domain used,  ep  "own" | "other": fork bucket of the epoch used
          form    "ok" | "trunc" (not 96 bytes) | "zero" (96 zero bytes) | "junk" (96 bytes that are no signature)
          vi      attestations only: the VC's copy, carrying the validator index]
-   and the threshold aggregate of a set of partials with pairwise distinct idx verifies under the group key for
-   content c (its own signing root, the domain and epoch of its type) iff there are >= T of them and each is a
-   well-formed signature by the share it is filed under, over c, with the type's domain and the content's own epoch.
+   The threshold aggregate of a set E of partials with pairwise distinct idx is sum_k lambda_k * f(by_k) * H(msg_k)
+   (lambda = the Lagrange coefficients at 0 of the share indices they are FILED under, f = the validator's sharing
+   polynomial of degree T-1, msg_k = what partial k signed: content, domain, fork version).  It verifies under the group
+   key for content c iff that sum is f(0) * H(c's own signing root) -- AlgValid(E, c) decides this EXACTLY, as an identity
+   in the coefficients of f (generic keys, independent hashes; an outside key or an undecodable signature never
+   cancels): per message class the functional sum lambda_k * ev(by_k) must be ev(0) for c's class and 0 for every other.
+   For honest partials this is "at least T of them" (the Lagrange fact of C08); for SEVERAL misfiled partials made with
+   cluster keys the errors can cancel -- e.g. T = 2, share 1 filed under 1 and share 2 filed under both 3 and 4:
+   2 f(1) - 2 f(2) + f(2) = f(0), the genuine group signature (found by the seeded random generator, reproduced in
+   harness/c09/repro_test.go).  The aggregator sees only the group key, so whether a list "contains an invalid share" is
+   judged by what can be judged: no selection of one partial per share index combines to a valid signature.
 
    What the property demands of one validator's list (AggMode = "free", used by trace validation) is Allowed(ps):
-     MustFail  too few, fewer than T distinct shares, an invalid share that nothing else is filed over, or -- all
-               shares distinct and all well-formed for what they carry -- disagreement on the content   -> error
-     AllOK     >= T, distinct shares, all valid, one content                        -> published, valid, that content
+     MustFail  too few; fewer than T distinct share indices; an invalid share that nothing else is filed over, or -- all
+               indices distinct and every partial valid for what it carries -- disagreement on the content, PROVIDED no
+               selection of one partial per index combines to a valid signature                              -> error
+     AllOK     >= T, distinct indices, all valid, one content                       -> published, valid, that content
      otherwise (a repeated share index with >= T distinct ones left; a partial that carries one content but signs
-               the other) the statement is silent: error, or a VALID object whose content >= T distinct shares signed.
+               the other; misfiled partials whose errors cancel) the statement is silent: error, or a VALID object
+               whose content >= T distinct shares signed / some selection combines to.
    AggMode / FailMode controls MUST violate the invariants:
      AggMode  "noverify"  aggregate without the final verification
      FailMode "partial"   a failing validator ends the loop but what was aggregated so far is handed out *)
@@ -75,14 +85,43 @@ GoodSig(p, ty) == /\ p.form = "ok" /\ p.by = p.idx /\ p.dom = DomainOf[ty]
 Valid(p, ty) == GoodSig(p, ty) /\ p.over = p.content       \* a valid partial for what it carries
 Hybrid(p, ty) == GoodSig(p, ty) /\ p.over # p.content      \* carries one content, signs the other
 Bad(p, ty) == ~GoodSig(p, ty)                               \* an invalid share
-\* contents for which a valid aggregate can exist at all: >= T distinct shares signed them
-Possible(ps, ty) == {c \in Contents : Cardinality({ps[k].idx : k \in {m \in DOMAIN ps : GoodSig(ps[m], ty) /\ ps[m].over = c}}) >= T}
+\* ---- exact validity of a combination (arithmetic modulo three 15-bit primes: an identity over the rationals holds
+\* modulo each; a non-identity would have to vanish modulo all three)
+Primes == {32713, 32719, 32749}
+ModQ(a, q) == ((a % q) + q) % q
+RECURSIVE FPow(_, _, _), ProdQ(_, _, _), SumE(_, _, _, _), SelSets(_, _)
+FPow(a, e, q) == IF e = 0 THEN 1 ELSE LET h == FPow(a, e \div 2, q) IN
+                 ModQ(ModQ(h * h, q) * (IF e % 2 = 1 THEN a ELSE 1), q)
+InvQ(a, q) == FPow(ModQ(a, q), q - 2, q)
+ProdQ(X, xi, q) == IF X = {} THEN 1 ELSE LET x == CHOOSE y \in X : TRUE IN       \* prod_{x # xi} x / (x - xi)
+                   ModQ((IF x = xi THEN 1 ELSE ModQ(x * InvQ(x - xi, q), q)) * ProdQ(X \ {x}, xi, q), q)
+SumE(E, lam, j, q) == IF E = {} THEN 0 ELSE LET p == CHOOSE r \in E : TRUE IN    \* sum lambda_k * by_k^j
+                      ModQ(ModQ(lam[p.idx] * FPow(p.by, j, q), q) + SumE(E \ {p}, lam, j, q), q)
+\* what a partial signed: content, domain, fork version (irrelevant for the genesis-domain types)
+Class(p, ty) == <<p.over, p.dom, IF EpochSrc[ty] = "none" THEN "own" ELSE p.ep>>
+Target(c, ty) == <<c, DomainOf[ty], "own">>
+\* E: partials with pairwise distinct idx.  Their threshold aggregate is the group signature for content c.
+AlgValid(E, c, ty) ==
+  /\ E # {} /\ \A p \in E : p.form = "ok" /\ p.by >= 1 /\ p.idx >= 1
+  /\ LET X == {p.idx : p \in E} IN
+     \A q \in Primes : LET lam == [x \in X |-> ProdQ(X, x, q)] IN
+       \A mu \in {Class(p, ty) : p \in E} \cup {Target(c, ty)} : \A j \in 0..(T - 1) :
+          SumE({p \in E : Class(p, ty) = mu}, lam, j, q) = (IF mu = Target(c, ty) /\ j = 0 THEN 1 ELSE 0)
+\* every way of keeping one partial per share index
+SelSets(ps, I) == IF I = {} THEN {{}} ELSE LET i == CHOOSE x \in I : TRUE IN
+                  {S \cup {ps[k]} : S \in SelSets(ps, I \ {i}), k \in {m \in DOMAIN ps : ps[m].idx = i}}
+CanBeValid(ps, c, ty) == \E E \in SelSets(ps, Idxs(ps)) : AlgValid(E, c, ty)
+\* contents for which a valid aggregate can exist at all: >= T distinct shares signed them (an implementation may
+\* combine any T of those), or some selection of one partial per index combines to a valid signature
+Possible(ps, ty) == {c \in Contents : \/ Cardinality({ps[k].idx : k \in {m \in DOMAIN ps : GoodSig(ps[m], ty) /\ ps[m].over = c}}) >= T
+                                      \/ CanBeValid(ps, c, ty)}
 
 MustFail(ps, ty) == \/ Len(ps) < T
                     \/ Cardinality(Idxs(ps)) < T
-                    \/ \E k \in DOMAIN ps : Bad(ps[k], ty) /\ Unique(ps, k)
-                    \/ /\ NoDup(ps) /\ \A k \in DOMAIN ps : Valid(ps[k], ty)
-                       /\ \E k, m \in DOMAIN ps : ps[k].content # ps[m].content
+                    \/ /\ \/ \E k \in DOMAIN ps : Bad(ps[k], ty) /\ Unique(ps, k)
+                          \/ /\ NoDup(ps) /\ \A k \in DOMAIN ps : Valid(ps[k], ty)
+                             /\ \E k, m \in DOMAIN ps : ps[k].content # ps[m].content
+                       /\ \A c \in Contents : ~CanBeValid(ps, c, ty)
 AllOK(ps, ty) == /\ Len(ps) >= T /\ NoDup(ps)
                  /\ \A k \in DOMAIN ps : Valid(ps[k], ty) /\ ps[k].content = ps[1].content
 Err == [k |-> "err"]
@@ -103,7 +142,7 @@ Coded(ps, ty) ==
        IF Cardinality(DOMAIN m) < T THEN Err
        ELSE IF \E i \in DOMAIN m : m[i].form # "ok" THEN Err        \* undecodable (or, for "zero", never valid)
        ELSE LET c == FullSig(ps, ty).content
-                ok == \A i \in DOMAIN m : GoodSig(m[i], ty) /\ m[i].over = c
+                ok == AlgValid({m[i] : i \in DOMAIN m}, c, ty)
             IN IF AggMode # "noverify" /\ ~ok THEN Err ELSE Pub(c, ok)
 Outcomes(ps, ty) == IF AggMode = "free" THEN Allowed(ps, ty) ELSE {Coded(ps, ty)}
 
